@@ -11,13 +11,14 @@ from schemas import gen_case_schema, schema_text
 from values import canon
 
 PROP = 'C02'
-THEOREMS = ['C02_encoder_in_spec', 'C02_decoder_accepts_spec', 'C02_layout_sound', 'C02_spec_longs',
-            'C02_spec_record', 'C02_spec_array', 'C02_spec_union', 'C02_lax_layout']
+THEOREMS = ['C02_encoder_in_spec', 'C02_decoder_accepts_spec', 'C02_layout_sound', 'C02_audit_accepts_spec', 'C02_spec_longs',
+            'C02_spec_record', 'C02_spec_array', 'C02_spec_union', 'C02_lax_layout', 'C02_audit_example']
 CFG = '(cfg 536870912 56 80)'
 RULE = ('(schema, value) pairs as in C01 (all primitive / logical / named / recursive kinds); per pair the '
         'implementation encoding and up to 6 specification-legal layouts from the certified generator: block '
         'size 1, 2, 3 x positive counts / negative counts with byte sizes. non-trivial = distinct layouts that '
-        'differ from the implementation\'s own bytes (i.e. the value contains a non-empty array or map)')
+        'differ from the implementation\'s own bytes (i.e. the value contains a non-empty array or map); plus the serde writer on 12 corpus '
+        'types x target block sizes {none,1,16,64,large}, its bytes read by the strict block auditor')
 
 def gen_cases(tier, seed):
     rng = Rng(seed)
@@ -38,13 +39,17 @@ def gen_cases(tier, seed):
 
 def evaluate(run, lines, meta, exe, drv):
     impl = fw.run_lines(exe, lines)
-    mlines, parsed = [], {}
+    mlines, parsed, unusable = [], {}, {}
     for cid, (st, v) in meta.items():
         run.evaluations += 1
         o = parse(impl.get(cid, '(missing)'))
         if tag(o) == 'schema-err':
             continue
         case = {'schema': st, 'value': v}
+        if tag(o) == 'obs' and tag(o[3]) == 'writer-err' and fw.null_ns_schema(st):
+            unusable[cid] = o
+            mlines.append('%se (encode %s %s)' % (cid, show(o[1]), show(o[2])))
+            continue
         if tag(o) != 'obs' or tag(o[3]) != 'ok':
             run.fail('impl-' + str(tag(o)), 'cannot encode: %s' % show(o)[:160], case)
             continue
@@ -53,9 +58,24 @@ def evaluate(run, lines, meta, exe, drv):
         for kk in (0, 1, 2):
             for neg in (0, 1):
                 mlines.append('%sL%d%d (layout %d %d %s %s %s)' % (cid, kk, neg, kk, neg, CFG, show(o[1]), show(o[2])))
+        # the implementation's own bytes read strictly: every block size it announces is right
+        mlines.append('%sA (audit %s %s %s)' % (cid, CFG, show(o[1]), o[3][1]))
     model = fw.run_lines(drv, mlines)
+    for cid, o in unusable.items():
+        st, v = meta[cid]
+        me = parse(model.get(cid + 'e', '(missing)'))
+        if show(me) == show(o[3]):
+            run.fail('unresolvable-reference-accepted', 'the parser accepted the schema but no writer can be built for it (a null-namespace name used inside a namespaced type)', {'schema': st, 'value': v})
+        else:
+            run.fail('impl-obs', 'cannot encode: %s (model: %s)' % (show(o[3])[:80], show(me)[:80]), {'schema': st, 'value': v})
+    for cid, o in parsed.items():
+        a = parse(model.get(cid + 'A', '(missing)'))
+        if tag(a) != 'ok' or a[1] != '#':
+            st, v = meta[cid]
+            run.fail('block-size-wrong', 'the bytes written do not pass the strict block audit (%s)' % show(a)[:60], {'schema': st, 'value': v, 'bytes': o[3][1][:200]})
     # forward: implementation bytes = model encoder bytes (in-spec by C02_encoder_in_spec)
     rlines, rmeta = [], {}
+    audits = []
     for cid, o in parsed.items():
         st, v = meta[cid]
         case = {'schema': st, 'value': v}
@@ -73,12 +93,20 @@ def evaluate(run, lines, meta, exe, drv):
                     continue
                 if m[2] != '1' or m[3] != '1':
                     run.count('layout-outside-theorem-hypotheses')      # e.g. null-namespace names table
+                audits.append(('%sL%d%d' % (cid, kk, neg), show(o[1]), m[1], cid))
                 if m[1] in seen:
                     continue
                 seen.add(m[1])
                 rid = '%sR%d%d' % (cid, kk, neg)
                 rlines.append('%s (decode2 %s %s)' % (rid, hx(st), m[1]))
                 rmeta[rid] = (cid, kk, neg, m[1])
+    # C02_audit_accepts_spec on the extracted code: every certified layout passes the strict audit
+    amodel = fw.run_lines(drv, ['%s (audit %s %s %s)' % (k, CFG, sch, lb) for k, sch, lb, _ in audits])
+    for k, sch, lb, cid in audits:
+        a = parse(amodel.get(k, '(missing)'))
+        run.count('audit-of-certified-layout:' + str(tag(a)))
+        if tag(a) != 'ok' or a[1] != '#':
+            run.disagree('audit', {'schema': meta[cid][0], 'layout': lb[:200]}, 'certified legal layout', show(a)[:60])
     got = fw.run_lines(exe, rlines)
     for rid, (cid, kk, neg, lb) in rmeta.items():
         run.evaluations += 1
@@ -102,6 +130,49 @@ def evaluate(run, lines, meta, exe, drv):
             run.nontrivial_case(st + lb)
             run.sample({'schema': st[:100], 'value': v[:100], 'layout': lb[:80], 'block': kk + 1, 'neg': bool(neg)})
 
+SERDE_TYPES = ['scalars', 'nested', 'node', 'wrap-inner', 'wrap-suit', 'with-shapes', 'reuse', 'units', 'vec-unit', 'vec-nothing', 'pair', 'array3']
+SERDE_BLOCKS = ['', '1', '16', '64', '100000']
+
+def serde_audit(run, exe, drv, tier, seed):
+    """the serde write path with target block sizes emits blocks with negative counts and byte sizes
+    (ser_schema/block.rs): what it writes must pass the strict audit and be one datum, the same for every block size"""
+    n = 8 if tier == 'quick' else 300
+    lines = []
+    for t in SERDE_TYPES:
+        for i in range(n):
+            for b in SERDE_BLOCKS:
+                lines.append('%s|%d|%s (serde %s %d %s)' % (t, i, b or 'none', t, seed * 1000 + i, b))
+    out = {k: parse(v) for k, v in fw.run_lines(exe, lines).items()}
+    ml = []
+    for k, o in out.items():
+        if tag(o) == 'obs' and isinstance(o[5], str) and tag(o[6]) == 'ok':
+            ml.append('%s|a (audit %s %s %s)' % (k, CFG, show(o[1]), o[5]))
+            ml.append('%s|d (decode %s %s %s)' % (k, CFG, show(o[1]), o[5]))
+    model = fw.run_lines(drv, ml)
+    per = {}
+    for k, o in sorted(out.items()):
+        t, i, b = k.split('|')
+        run.evaluations += 1
+        case = {'type': t, 'seed_index': int(i), 'block_size': b}
+        if tag(o) != 'obs' or tag(o[6]) != 'ok':
+            run.fail('serde-write-fails', show(o)[:100], case)
+            continue
+        case['bytes'] = o[5][:300]
+        a = parse(model.get(k + '|a', '(missing)'))
+        d = parse(model.get(k + '|d', '(missing)'))
+        run.count('serde-audit:' + str(tag(a)))
+        if tag(a) != 'ok' or a[1] != '#':
+            run.fail('block-size-wrong', 'serde writer output does not pass the strict block audit: a block announces a byte size that is not the size of its items (%s)' % show(a)[:40], case)
+        elif tag(d) != 'ok' or d[2] != '#':
+            run.fail('serde-bytes-not-one-datum', 'the specification decoder reads %s' % show(d)[:60], case)
+        else:
+            per.setdefault((t, i), {})[b] = show(canon(d[1], True))
+            if b not in ('none', '100000') and '01' in o[5]:
+                run.nontrivial_case('serde' + k)
+    for (t, i), dd in per.items():
+        if len(set(dd.values())) > 1:
+            run.fail('block-size-changes-value', 'block sizes %s give different data' % sorted(dd), {'type': t, 'seed_index': int(i)})
+
 def run(tier, seed):
     run_ = fw.Run(PROP, tier, seed)
     run_.proof = fw.proof_step(PROP, THEOREMS)
@@ -109,6 +180,7 @@ def run(tier, seed):
     drv = fw.build_ocaml()
     lines, meta = gen_cases(tier, seed)
     evaluate(run_, lines, meta, exe, drv)
+    serde_audit(run_, exe, drv, tier, seed)
     return fw.finish(run_, 'theorems C02_* (specification relation) + certified-layout differential check', RULE, search)
 
 def search(run_):
@@ -117,6 +189,7 @@ def search(run_):
     r2 = fw.Run(PROP, run_.tier, run_.seed + 1)
     lines, meta = gen_cases('quick', run_.seed + 1)
     evaluate(r2, lines, meta, exe, drv)
+    serde_audit(r2, exe, drv, 'quick', run_.seed + 1)
     return r2.failures
 
 def replay(rp):
